@@ -22,11 +22,13 @@ Under(m, p) == {<<SubSeq(x[1], Len(p) + 1, Len(x[1])), x[2]>> : x \in {y \in m :
 
 Judge ==
   LET z0  == Abs(B.z0)
-      a   == Abs(B.a)
+      \* a source rank declared uncompressed presents every coordinate of its shape (absent ones with the default): the same program as a
+      \* compressed source that stores every coordinate, with a "default" that never occurs
+      a   == IF B.au = 1 THEN Fib([c \in 1..B.ash |-> <<c - 1, IF Has(Abs(B.a).e, c - 1) THEN Get(Abs(B.a).e, c - 1) ELSE Leaf(B.da)>>]) ELSE Abs(B.a)
       d   == B.depth
       sc  == B.script
       dz  == B.dz
-      da  == B.da
+      da  == IF B.au = 1 THEN -7 ELSE B.da
       exp == Offers(a, sc, <<>>, d, da)
       m0  == Content(z0, dz)
       isT == B.emb = "tensor"
